@@ -20,6 +20,7 @@
 #include <string>
 #include <sys/stat.h>
 #include <unistd.h>
+#include <csignal>
 #include <vector>
 
 using std::string;
@@ -589,14 +590,31 @@ static string runOp(const string &line) {
     return "bad-op=1";
 }
 
+// every operation runs under a deadline (GFS_OP_DEADLINE seconds, default 120): an operation that
+// does not return is reported as such and the process ends (the check re-runs the remaining lines)
+static void onAlarm(int) {
+    static const char msg[] = "panic=operation did not return within the deadline\n";
+    ssize_t ignored = write(1, msg, sizeof(msg) - 1);
+    (void)ignored;
+    _exit(3);
+}
+
 int main() {
     std::ios::sync_with_stdio(false);
+    unsigned deadline = 120;
+    if (const char *e = std::getenv("GFS_OP_DEADLINE")) {
+        int v = std::atoi(e);
+        if (v > 0) deadline = (unsigned)v;
+    }
+    signal(SIGALRM, onAlarm);
     // the library prints diagnostics for unparsable patterns on stderr; keep them out of the way
     string line;
     while (std::getline(std::cin, line)) {
         if (line.empty()) continue;
+        alarm(deadline);
         std::cout << runOp(line) << "\n";
         std::cout.flush();
+        alarm(0);
     }
     return 0;
 }
